@@ -14,7 +14,14 @@ for f in sorted(glob.glob('/verif/seeded/*/meta.json')):
         else:
             det.append(f"{p}: not detected (exit {r['exit']})")
     rows.append((m['seed'], m['breaks_property'], ', '.join(files), 'yes' if m.get('confirmed') else 'NO', '; '.join(det)))
-print("| seed | property | file(s) changed | demo confirmed | quick checks run with the change applied |")
-print("|---|---|---|---|---|")
+import sys
+lines = ["| seed | property | file(s) changed | demo confirmed | quick checks run with the change applied |", "|---|---|---|---|---|"]
 for r in rows:
-    print("| " + " | ".join(r) + " |")
+    lines.append("| " + " | ".join(r) + " |")
+if '--update-design' in sys.argv:
+    d = open('/verif/DESIGN.md').read()
+    b, e = '<!-- SEEDTABLE:BEGIN -->', '<!-- SEEDTABLE:END -->'
+    i, j = d.index(b) + len(b), d.index(e)
+    open('/verif/DESIGN.md', 'w').write(d[:i] + "\n" + "\n".join(lines) + "\n" + d[j:])
+else:
+    print("\n".join(lines))
